@@ -254,6 +254,38 @@ class Real:
         return f"bits {int(bits[0])}", seen
 
 
+    def call_pair(self, fmt, kw, args_bits, as_array=False):
+        """a TUPLE-valued function (x + y, x * y) through the backend: every member must come back as a NumPy value of the dtype
+        (`vectorize_with_backend.__call__` converts tuple results member by member — a first-order mutant of that test survived)"""
+        def g(x, y):
+            return x + y, x * y
+        kwargs = {}
+        if kw != "A":
+            kwargs["flush_subnormals"] = self.flag(kw)
+        v = self.utils.vectorize_with_mpmath(g, **kwargs)
+        args = [self.frombits(fmt, b) for b in args_bits]
+        if as_array:
+            args = [self.np.array([a, a]) for a in args]
+        with warnings.catch_warnings():
+            warnings.simplefilter("ignore")
+            with self.np.errstate(all="ignore"):
+                try:
+                    res = v(*args)
+                except Exception as e:  # noqa
+                    return ["other:" + type(e).__name__] * 2
+        if not isinstance(res, tuple) or len(res) != 2:
+            return ["wrong-type:" + type(res).__name__] * 2
+        outs = []
+        for r in res:
+            r = self.np.asarray(r)
+            if str(r.dtype) != fmt:
+                outs.append("wrong-dtype:" + str(r.dtype))
+                continue
+            bits = r.reshape(-1).view(self.utypes[fmt])
+            outs.append(f"bits {int(bits[0])}")
+        return outs
+
+
 # ----------------------------------------------------------------------------------------------
 # generators
 # ----------------------------------------------------------------------------------------------
@@ -886,6 +918,20 @@ def run(ctx):
                         ctx.case(key=("fma-tie", fmt, tuple(bs), mn_, md_, ex_), nontrivial=True)
                         ctx.count("call:fn=fma:tie-beyond-2p")
                         check_call_clause(ctx, fm, m, out, None)
+
+    # ---- tuple-valued functions through the backend (search only): both members correctly rounded and of the dtype
+    for fmt_ in ("float16", "float32", "float64"):
+        fm_ = fms[fmt_]
+        for _ in range(ctx.scale(12, 200)):
+            bs = [gen_float_bits(fm_)[0], gen_float_bits(fm_)[0]]
+            for kwf in ("A", "F"):
+                for arr in (False, True):
+                    outs = real.call_pair(fmt_, kwf, bs, as_array=arr)
+                    for fn_, out in zip(("add", "mul"), outs):
+                        m = dict(fmt=fmt_, kw=kwf, mn=0, md=1, ex=0, fn=fn_, args=bs, cl=("tuple",), arr=arr)
+                        ctx.case(key=("tuple", fmt_, tuple(bs), kwf, arr, fn_), nontrivial=True)
+                        ctx.count("call:tuple-output")
+                        check_call_clause(ctx, fm_, m, out, None)
 
     # nothing else to do for broken Lean obligations: the model is hand-written, so a Lean failure is a
     # checker regression, not a change in /repo; the clauses above were all evaluated on the real code.
